@@ -382,10 +382,12 @@ fn judge(case_argv: &[Vec<u8>], envp: &[Vec<u8>], keys: &[Vec<u8>], path: &str, 
                     0 => if k < n { elem(k) } else { NONE },
                     1 | 2 => if k < n { elem(n - 1) } else { NONE },
                     3 => n.saturating_sub(k),
+                    5 | 6 | 7 | 9 => if k + 1 < n { elem(k + 1) } else { NONE },
+                    8 => if 2 * k < n { elem(2 * k) } else { NONE },
                     _ => if n > 0 { elem(n - 1) } else { NONE },
                 };
                 if got != want {
-                    let name = ["nth(k)", "skip(k).last()", "k x next() then last()", "k x next() then count()", "last()"][(op & 15).min(4) as usize];
+                    let name = ["nth(k)", "skip(k).last()", "k x next() then last()", "k x next() then count()", "last()", "next() then nth(k)", "k x next() then nth(1)", "next() then skip(k).next()", "step_by(2).nth(k)", "nth(k) then next()"][(op & 15).min(9) as usize];
                     let show = |v: u32| match v {
                         NONE => "None".to_string(),
                         ERR => "Some(Err) (an argument that is not UTF-8)".to_string(),
